@@ -51,6 +51,17 @@ def c_inside(reg, es, ns, shape, kind="inside"):
     return _mk("inside", [list(reg), es, ns, shape], f"inside {C.enc(list(reg))} {_enc_nan(es)} {_enc_nan(ns)}", kind)
 
 
+def _f32_inside(reg):
+    """Points whose coordinates are single-precision numbers next to each bound (the nearest float32 to the bound and its two neighbours)."""
+    def near(v):
+        c = np.float32(v)
+        return [float(np.nextafter(c, np.float32(-np.inf))), float(c), float(np.nextafter(c, np.float32(np.inf)))]
+    mid_e, mid_n = float(np.float32((reg[0] + reg[1]) / 2)), float(np.float32((reg[2] + reg[3]) / 2))
+    es = near(reg[0]) + near(reg[1]) + [mid_e] * 6
+    ns = [mid_n] * 6 + near(reg[2]) + near(reg[3])
+    return c_inside(reg, es, ns, [12], "inside-float32")
+
+
 def c_nodes(reg, shape, spacing, pixel, seed, kind="nodes-inside"):
     """grid_coordinates(region, shape | spacing adjusted to the region) and scatter_points(region): every node inside the region.
     Decided on the implementation alone (float bounds that are not binary fractions are the point)."""
@@ -100,6 +111,7 @@ def corpus():
           c_inside((2, 0, 0, 2), [1.0], [1.0], [1], "inside-invalid-region"),
           c_inside((0, 2, 0, 2), [1.0, float("nan"), 1.0, float("nan"), 3.0], [1.0, 1.0, float("nan"), float("nan"), float("nan")], [5], "inside-nan"),
           c_get_region([1.0, -3.0, 2.5], [7.0, 7.0, 7.0], [3]), c_pad((0, 1, 2, 3), 0.5), c_pad((0, 1, 2, 3), (0.25, -0.5)),
+          _f32_inside((-3.3, 20.1, 0.7, 9.9)), _f32_inside((100.1, 100.3, -0.1, 0.1)),
           c_scatter((0, 10, -5, 0), 7, 0, None), c_scatter((0, 10, -5, 0), 3, 1, [4.0, 5.0]),
           c_scatter((10, 0, -5, 0), 3, 1, None, "scatter-invalid"),
           c_maxabs([[1.0, -5.0, 2.0], [[3.0, 4.0], [0.0, -1.0]]]), c_maxabs([[-7.0]]),
@@ -149,6 +161,10 @@ def generate(rng, tier):
                 for _ in range(rng.randint(1, 3)):
                     (es if rng.random() < 0.5 else ns)[rng.randrange(npts)] = float("nan")
             cs.append(c_inside(r2, es, ns, _shape_for(rng, npts), "inside" if r2 is reg else "inside-invalid-region"))
+            if rng.random() < 0.15:
+                dreg = tuple(round(v + rng.choice([0.1, 0.3, 0.7]), 1) for v in reg)
+                if dreg[0] <= dreg[1] and dreg[2] <= dreg[3]:
+                    cs.append(_f32_inside(dreg))
         elif u < 0.55:
             pad = G.number(rng) if rng.random() < 0.5 else (G.number(rng), G.number(rng))
             cs.append(c_pad(reg, pad))
@@ -224,7 +240,16 @@ def impl(case):
         n = C.mkarr(a[2], a[3], "a[2]:" + case["op"])
         e.setflags(write=False)
         n.setflags(write=False)
-        r = C.call(vd.inside, (e, n), a[0])
+        reg_arg = a[0]
+        if case["kind"].endswith("float32"):
+            # single-precision coordinates against double-precision bounds (as get_region / pad_region return them): the comparison is exact
+            e, n = e.astype("float32"), n.astype("float32")
+            e.setflags(write=False)
+            n.setflags(write=False)
+            reg_arg = tuple(np.float64(v) for v in a[0])
+        elif len(case["op"]) % 3 == 0:
+            reg_arg = np.array(a[0], dtype="float64")
+        r = C.call(vd.inside, (e, n), reg_arg)
         if C.is_err(r):
             return r
         if list(r.shape) != list(a[3]) or r.dtype != bool:
